@@ -73,6 +73,11 @@ def gen(run):
     # registry histories (the Go registry is global and never shrinks: one cumulative history)
     hist = ['r ' + hx(b'_app_def') + ' ' + hx(b'_biz_def')]
     pool = [s for s in comps if go_regexp_oracle(s)][:60] + [b'Ab', b'a__b', b'ab', b'_', b'a_b_c_d_e']
+    # names that are one normalisation step away from a valid (possibly already registered) one: the registry must refuse them, not repair them
+    for base in pool[:12] + [b'_app_def', b'abc']:
+        for pre, post in ((b' ', b''), (b'', b' '), (b'\t', b' '), (b'', b'\n'), (b'\n', b''), (b'', b'\r\n'), (b'\x0b', b''), (b'', b'\x0c'), (b'\xc2\xa0', b''), (b'', b'\x00')):
+            pool.append(pre + base + post)
+        pool += [base.upper(), base.capitalize(), base + b'_', b'__' + base.lstrip(b'_'), base.replace(b'_', b'-'), base.replace(b'_', b'.')]
     for _ in range(40 if quick else 400):
         ops = [rng.choice(pool) for _ in range(rng.randint(1, 8))]
         hist.append('r ' + ' '.join(hx(o) for o in ops))
